@@ -432,6 +432,25 @@ func c20(r *Report) {
 			// (1 to 70 characters): SetBoundary refuses a longer one silently here, and the
 			// Content-Type then announces a boundary the body does not use
 			if m.name == "body" {
+				// every modifier draws its own default boundary (one boundary per process is known to
+				// whoever has seen a single multi-range answer, and content can then be made to contain it)
+				if nm := w.Fn("body", "NewModifier"); nm != nil && nm.Blocks != nil {
+					r.Touch(nm)
+					own := false
+					nb := 0
+					for _, a := range allocsOf(nm, M+"/body.Modifier") {
+						for _, st := range litFieldStores(a)["boundary"] {
+							nb++
+							own = true
+							for _, l := range resolveAll(st.Val) {
+								if c, isC := l.(*ssa.Call); !isC || calleeName(c) != "M/body.randomBoundary" || c.Parent() != nm {
+									own = false
+								}
+							}
+						}
+					}
+					r.Decide("flow", "M/body.NewModifier: the default boundary is drawn for this modifier", nb >= 1 && own, "boundary: randomBoundary(), called in NewModifier", "the default boundary is not a fresh random value of this modifier (a package-level one drawn once): every multi-range answer of the process uses the same boundary, and a body that contains it is cut into more parts than ranges were asked for", nm.Pos())
+				}
 				if rb := w.Fn("body", "randomBoundary"); rb != nil && rb.Blocks != nil {
 					r.Touch(rb)
 					maxLen, known := 0, false
